@@ -409,6 +409,9 @@ func checkQCase(c QCase, o *vt.Obs) error {
 		o.Label("known:bqueue-len-leak")
 		capLeft = 0
 	}
+	if !r.leakKnown && r.lenMax >= r.lenMin && (r.lenMin < 0 || r.lenMax > c.Cache) {
+		return fmt.Errorf("the queue reported lengths in [%d, %d] through its length metric callback, cache size is %d", r.lenMin, r.lenMax, c.Cache)
+	}
 	if capLeft < 0 || capLeft > c.Cache {
 		return fmt.Errorf("LastQueued() reports capacity left %d at quiescence, outside [0, %d] (height %d, len metric range [%d, %d])", capLeft, c.Cache, final, r.lenMin, r.lenMax)
 	}
